@@ -65,6 +65,23 @@ deriving instance DecidableEq for Except
 def pyArange (start stop step : Rat) : List Rat :=
   (List.range ((stop - start) / step).ceil.toNat).map (fun (i : Nat) => start + (i : Rat) * step)
 
+/-- the bins of `np.histogram` for explicit edges: `[e_i, e_{i+1})`, the last one closed on the right -/
+def pyHistBins : List Rat → List (Rat × Rat × Bool)
+  | [] => []
+  | [_] => []
+  | [a, b] => [(a, b, true)]
+  | a :: b :: c :: rest => (a, b, false) :: pyHistBins (b :: c :: rest)
+
+def pyInBin (v : Rat) (b : Rat × Rat × Bool) : Bool :=
+  decide (b.1 ≤ v) && (if b.2.2 then decide (v ≤ b.2.1) else decide (v < b.2.1))
+
+/-- total weight of the (value, weight) pairs whose value falls into bin `b` -/
+def pyBinSum (ps : List (Rat × Rat)) (b : Rat × Rat × Bool) : Rat := ((ps.filter (fun vw => pyInBin vw.1 b)).map (·.2)).sum
+
+/-- `np.histogram(vals, edges, weights=weights)[0]` in exact arithmetic: values outside `[e_0, e_n]` are not counted -/
+def pyHistogram (vals edges weights : List Rat) : List Rat :=
+  (pyHistBins edges).map (pyBinSum (vals.zip weights))
+
 /-- result of a translated `for` loop that can leave the function early: `ret r` = the function returns
 (or raises) `r`; `done s` = the loop ended (normally or by `break`) with state `s` -/
 inductive Loop (ρ σ : Type) where
